@@ -265,7 +265,7 @@ func (fx *FnCtx) checkCalleeFrame(fr *Frame, ins ssa.Instruction, st *State, cal
 
 // after a havoc inside the top-level function: cells that existed at entry and are outside the assigns clause
 // still hold their entry values (justified by the per-store frame obligations).
-func (fx *FnCtx) frameAssumption(st *State) {
+func (fx *FnCtx) frameAssumption(st, pre *State) {
 	if !fx.hasAssigns {
 		return
 	}
@@ -274,6 +274,12 @@ func (fx *FnCtx) frameAssumption(st *State) {
 		h := st.heaps[k]
 		old := fx.heap(fx.entry, k, srt)
 		if h == old {
+			continue
+		}
+		if ph, ok := pre.heaps[k]; ok && ph == h {
+			continue // not havoced here: nothing new to say (and h may be a defined term, unusable as a pattern)
+		}
+		if !strings.HasPrefix(h, "Hh!") && !strings.HasPrefix(h, "Hc!") {
 			continue
 		}
 		if len(fx.assignSet.byKey[k]) == 0 {
